@@ -18,6 +18,7 @@ import (
 	"context"
 	"sync"
 
+	"github.com/B1NARY-GR0UP/originium/pkg/vhook"
 	"github.com/B1NARY-GR0UP/originium/pkg/watermark"
 )
 
@@ -76,6 +77,7 @@ func (o *oracle) readTs() uint64 {
 	readTs := o.nextTs - 1
 	o.readMark.Begin(readTs)
 	o.Unlock()
+	vhook.Event("begin.ts", readTs)
 
 	// ensure current txn can read the latest value of txn at ts <= readTs
 	if err := o.commitMark.WaitForMark(context.Background(), readTs); err != nil {
